@@ -420,6 +420,9 @@ def beyond_the_property(tier, rnd, work):
         bd = C.ensure_harness("asan", ["drv_env"])
         mce = C.run_tlc("MC_Env", "MC_Env.cfg", workers=4, deadlock=False)
         wit = C.run_tlc("MC_Env", "MC_Env_W_OneUuid.cfg", workers=2, deadlock=False)
+        witr = C.run_tlc("MC_Env", "MC_Env_W_Race.cfg", workers=2, deadlock=False)
+        if not witr.violation:
+            print("NOTE property=C01 MC_Env_W_Race: two interleaved constructions no longer violate UuidPersistent in the model", flush=True)
         if mce.violation:
             print("NOTE property=C01 MC_Env: " + str(mce.violation)[:200], flush=True)
         if not wit.violation:
@@ -435,6 +438,16 @@ def beyond_the_property(tier, rnd, work):
             print(f"NOTE property=C01 the environment attribute handlers (spec/QtlEnv.tla: snapshot at construction, persistent "
                   f"application UUID) rejected {len(a_fail)} of {a_info['histories']} histories; first: "
                   f"{json.dumps(a_fail[0]['event'])[:300]}", flush=True)
+        r_acc, r_fail, r_info = env_spec.attrs_campaign(bd, rnd, 30 if tier == "quick" else 600, work, races=True)
+        if r_fail:
+            print(f"NOTE property=C01 simultaneous constructions of AppUuidAttr by two instances of the application: {len(r_fail)} of "
+                  f"{r_info['histories']} histories are not explained by QtlEnv's read / write steps; first: "
+                  f"{json.dumps(r_fail[0]['event'])[:300]}", flush=True)
+        if r_info["simultaneous_constructions_that_showed_two_uuids"]:
+            print(f"NOTE property=C01 observation beyond the list: {r_info['simultaneous_constructions_that_showed_two_uuids']} of "
+                  f"{r_info['simultaneous_constructions']} simultaneous first constructions of AppUuidAttr by two instances of one application "
+                  "showed two different UUIDs (read-then-write on the settings without a lock; MC_Env_W_Race violates UuidPersistent)", flush=True)
+        a_info["simultaneous"] = dict(r_info, accepted_histories=r_acc, rejected_histories=len(r_fail))
         out["environment_attribute_handlers"] = dict(a_info, accepted_histories=a_acc, rejected_histories=len(a_fail),
                                                      model_states=mce.distinct, witness_violates=bool(wit.violation),
                                                      apalache_inductive_invariant=apa)
